@@ -538,6 +538,28 @@ def main():
                 if after_changed is not None:
                     rep["changed"] = after_changed
                 out.write(json.dumps(rep) + "\n")
+        elif cmd["cmd"] == "shared":
+            # several calls on ONE sandbox (the first call's files): awaited one after the other (`how` = "seq") or
+            # submitted together with asyncio.gather (`how` = "gather"); same submission order in both
+            calls = cmd["calls"]
+            sb = prepare(calls[0])
+
+            async def run_shared():
+                if cmd["how"] == "seq":
+                    return [await serve(c, sb) for c in calls]
+                return await asyncio.gather(*[serve(c, sb) for c in calls])
+            texts = asyncio.run(run_shared())
+            left = {}
+            for dp, _dn, fns in os.walk(sb):
+                for fn in fns:
+                    try:
+                        with open(os.path.join(dp, fn), encoding="utf-8", errors="replace", newline="") as f:
+                            left[os.path.relpath(os.path.join(dp, fn), sb)] = f.read()
+                    except OSError as e:
+                        left[os.path.relpath(os.path.join(dp, fn), sb)] = f"unreadable:{type(e).__name__}"
+            rep = finish(calls[0], sb, json.dumps([t.replace(sb, "$SB") for t in texts]), None)
+            rep["left"] = dict(sorted(left.items()))
+            out.write(json.dumps(rep) + "\n")
         elif cmd["cmd"] == "sites":
             out.write(json.dumps({"sites": [[*k, v[0], v[1]] for k, v in sorted(SITES.items())],
                                   "envsites": [[*k, v] for k, v in sorted(ENVSITES.items())]}) + "\n")
